@@ -2,16 +2,16 @@ import BleveModel.Model.TopN
 /-! Proofs about the generic top-N collection model. Core Lean only. -/
 namespace Bleve.TopN
 
-variable {α : Type}
+variable {α : Type} {κ : Type}
 
 /-- what the proofs need from "sorts before": a strict order that is total on elements with
     different keys (for matches the key is the hit number) -/
-structure Ord (lt : α → α → Bool) (key : α → Nat) : Prop where
+structure Ord (lt : α → α → Bool) (key : α → κ) : Prop where
   irrefl : ∀ a, lt a a = false
   trans : ∀ a b c, lt a b = true → lt b c = true → lt a c = true
   total : ∀ a b, key a ≠ key b → lt a b = true ∨ lt b a = true
 
-theorem Ord.asymm {lt : α → α → Bool} {key : α → Nat} (h : Ord lt key) (a b : α)
+theorem Ord.asymm {lt : α → α → Bool} {key : α → κ} (h : Ord lt key) (a b : α)
     (hab : lt a b = true) : lt b a = false := by
   cases hba : lt b a
   · rfl
@@ -51,7 +51,7 @@ theorem ins_length (lt : α → α → Bool) (d : α) (l : List α) : (ins lt d 
 theorem mem_ins (lt : α → α → Bool) (d z : α) (l : List α) : z ∈ ins lt d l ↔ z = d ∨ z ∈ l := by
   rw [(ins_perm lt d l).mem_iff]; simp
 
-theorem ins_sorted {lt : α → α → Bool} {key : α → Nat} (h : Ord lt key) (d : α) (l : List α)
+theorem ins_sorted {lt : α → α → Bool} {key : α → κ} (h : Ord lt key) (d : α) (l : List α)
     (hs : Sorted lt l) (hk : ∀ x ∈ l, key x ≠ key d) : Sorted lt (ins lt d l) := by
   induction l with
   | nil => simp [ins, Sorted]
@@ -81,7 +81,7 @@ theorem ins_sorted {lt : α → α → Bool} {key : α → Nat} (h : Ord lt key)
       · exact hxd
       · exact hs.1 z hz
 
-theorem insRev_sortedRev {lt : α → α → Bool} {key : α → Nat} (h : Ord lt key) (d : α) (r : List α)
+theorem insRev_sortedRev {lt : α → α → Bool} {key : α → κ} (h : Ord lt key) (d : α) (r : List α)
     (hs : r.Pairwise (fun a b => lt b a = true)) (hk : ∀ x ∈ r, key x ≠ key d) :
     (insRev lt d r).Pairwise (fun a b => lt b a = true) := by
   induction r with
@@ -109,7 +109,7 @@ theorem insRev_sortedRev {lt : α → α → Bool} {key : α → Nat} (h : Ord l
       · exact hxd
       · exact h.trans _ _ _ (hs.1 z hz) hxd
 
-theorem sorted_unique {lt : α → α → Bool} {key : α → Nat} (h : Ord lt key) (l₁ l₂ : List α)
+theorem sorted_unique {lt : α → α → Bool} {key : α → κ} (h : Ord lt key) (l₁ l₂ : List α)
     (h1 : Sorted lt l₁) (h2 : Sorted lt l₂) (hp : l₁.Perm l₂) : l₁ = l₂ := by
   refine List.Perm.eq_of_pairwise (le := fun a b => lt a b = true) ?_ h1 h2 hp
   intro a b _ _ hab hba
@@ -117,7 +117,7 @@ theorem sorted_unique {lt : α → α → Bool} {key : α → Nat} (h : Ord lt k
   rw [hba] at this; cases this
 
 /-- on a sorted store the back-scan insertion of the slice store is ordered insertion -/
-theorem addBack_eq_ins {lt : α → α → Bool} {key : α → Nat} (h : Ord lt key) (d : α) (l : List α)
+theorem addBack_eq_ins {lt : α → α → Bool} {key : α → κ} (h : Ord lt key) (d : α) (l : List α)
     (hs : Sorted lt l) (hk : ∀ x ∈ l, key x ≠ key d) : addBack lt d l = ins lt d l := by
   apply sorted_unique h
   · unfold addBack Sorted
@@ -183,7 +183,7 @@ theorem isort_perm (lt : α → α → Bool) (l : List α) : (isort lt l).Perm l
   have := foldl_ins_perm lt l []
   simpa [isort] using this
 
-theorem foldl_ins_sorted {lt : α → α → Bool} {key : α → Nat} (h : Ord lt key) (l acc : List α)
+theorem foldl_ins_sorted {lt : α → α → Bool} {key : α → κ} (h : Ord lt key) (l acc : List α)
     (hs : Sorted lt acc) (hk : ((acc ++ l).map key).Nodup) :
     Sorted lt (l.foldl (fun acc d => ins lt d acc) acc) := by
   induction l generalizing acc with
@@ -204,7 +204,7 @@ theorem foldl_ins_sorted {lt : α → α → Bool} {key : α → Nat} (h : Ord l
         exact (List.perm_middle).symm
       exact (hp.nodup_iff).2 hk
 
-theorem isort_sorted {lt : α → α → Bool} {key : α → Nat} (h : Ord lt key) (l : List α)
+theorem isort_sorted {lt : α → α → Bool} {key : α → κ} (h : Ord lt key) (l : List α)
     (hk : (l.map key).Nodup) : Sorted lt (isort lt l) := by
   unfold isort
   apply foldl_ins_sorted h l [] (by simp [Sorted]) (by simpa using hk)
@@ -216,7 +216,7 @@ theorem isort_snoc (lt : α → α → Bool) (p : List α) (d : α) :
 end Bleve.TopN
 
 namespace Bleve.TopN
-variable {α : Type}
+variable {α : Type} {κ : Type}
 
 theorem getLast?_split (l : List α) (a : α) (h : l.getLast? = some a) : l.dropLast ++ [a] = l := by
   have hne : l ≠ [] := by intro e; rw [e] at h; simp at h
@@ -231,7 +231,7 @@ def Inv (k : Nat) (st : St α) (S : List α) : Prop :=
   st.store ++ st.lowest.toList = S.take (k+1) ∧ st.store.length ≤ k ∧
     (st.lowest.isSome = true → st.store.length = k)
 
-theorem handle_inv {lt : α → α → Bool} {key : α → Nat} (h : Ord lt key) (k : Nat) (st : St α)
+theorem handle_inv {lt : α → α → Bool} {key : α → κ} (h : Ord lt key) (k : Nat) (st : St α)
     (p : List α) (d : α) (hk : ((p ++ [d]).map key).Nodup) (hinv : Inv k st (isort lt p)) :
     Inv k (handle lt k st d) (isort lt (p ++ [d])) := by
   obtain ⟨heq, hlen, hsome⟩ := hinv
@@ -317,7 +317,7 @@ theorem handle_inv {lt : α → α → Bool} {key : α → Nat} (h : Ord lt key)
       refine ⟨?_, by omega, fun hc => by cases hc⟩
       rw [List.take_of_length_le (by omega)]
 
-theorem foldl_handle_inv {lt : α → α → Bool} {key : α → Nat} (h : Ord lt key) (k : Nat)
+theorem foldl_handle_inv {lt : α → α → Bool} {key : α → κ} (h : Ord lt key) (k : Nat)
     (ms p : List α) (st : St α) (hk : ((p ++ ms).map key).Nodup) (hinv : Inv k st (isort lt p)) :
     Inv k (ms.foldl (handle lt k) st) (isort lt (p ++ ms)) := by
   induction ms generalizing p st with
@@ -349,7 +349,7 @@ theorem inv_store (k : Nat) (st : St α) (S : List α) (hinv : Inv k st S) : st.
 
 /-- **Main theorem**: for every match stream whose elements have distinct keys, every size and
     skip, the collector's result is the requested slice of the fully sorted list. -/
-theorem collect_eq_page {lt : α → α → Bool} {key : α → Nat} (h : Ord lt key) (size skip : Nat)
+theorem collect_eq_page {lt : α → α → Bool} {key : α → κ} (h : Ord lt key) (size skip : Nat)
     (ms : List α) (hk : (ms.map key).Nodup) : collect lt size skip ms = page lt size skip ms := by
   unfold collect page
   have hinv := foldl_handle_inv h (size + skip) ms [] ⟨[], none⟩ (by simpa using hk)
@@ -359,7 +359,7 @@ theorem collect_eq_page {lt : α → α → Bool} {key : α → Nat} (h : Ord lt
   congr 1; omega
 
 /-- the specification does not depend on the sorting algorithm: any sorted permutation will do -/
-theorem page_eq_of_sorted_perm {lt : α → α → Bool} {key : α → Nat} (h : Ord lt key) (size skip : Nat)
+theorem page_eq_of_sorted_perm {lt : α → α → Bool} {key : α → κ} (h : Ord lt key) (size skip : Nat)
     (ms L : List α) (hk : (ms.map key).Nodup) (hp : L.Perm ms) (hs : Sorted lt L) :
     page lt size skip ms = (L.drop skip).take size := by
   unfold page
@@ -368,7 +368,7 @@ theorem page_eq_of_sorted_perm {lt : α → α → Bool} {key : α → Nat} (h :
 end Bleve.TopN
 
 namespace Bleve.TopN
-theorem inj_of_nodup_map {α : Type} (f : α → Nat) : ∀ (l : List α), (l.map f).Nodup →
+theorem inj_of_nodup_map {α κ : Type} (f : α → κ) : ∀ (l : List α), (l.map f).Nodup →
     ∀ a ∈ l, ∀ b ∈ l, f a = f b → a = b := by
   intro l
   induction l with
